@@ -24,10 +24,12 @@ Theorem C10_backed_sentinel : forall dc lf q a,
   (forall s, lenv_ok (lf s)) -> deliverable dc q -> nonneg nstore a -> J_sentinel a -> K_sentinel a ->
   exists a', process_all nstore dc (sentinel_lookup lf) a q = Some a' /\ K_sentinel a'.
 Proof. exact sentinel_backed_history. Qed.
-Theorem C10_backed_pillar_partial : forall dc name_ok P lf q a,
-  0 <= P -> (forall s, lenv_ok (lf s) /\ c_PillarStake (lf s) = P) -> deliverable dc q ->
+(* pillar contract: Register, RegisterLegacy, Revoke, UpdatePillar, Delegate, Undelegate, DepositQsr, WithdrawQsr.
+   J_pillar P = every amount >= 0 and an ACTIVE pillar holds exactly the pillar stake P (now itself preserved) *)
+Theorem C10_backed_pillar : forall dc name_ok legacy_key P lf q a,
+  0 <= P < two256 -> (forall s, penv_ok P (lf s)) -> deliverable dc q ->
   nonneg lstore a -> J_pillar P a -> K_pillar a ->
-  exists a', process_all lstore dc (pillar_lookup name_ok lf) a q = Some a' /\ K_pillar a'.
+  exists a', process_all lstore dc (pillar_lookup name_ok legacy_key lf) a q = Some a' /\ J_pillar P a' /\ K_pillar a'.
 Proof. exact pillar_backed_history. Qed.
 Theorem C10_backed_qsr_deposits : forall dc self q a,
   deliverable dc q -> nonneg cstore a -> J_common a -> K_common a ->
@@ -36,6 +38,15 @@ Proof. exact common_backed_history. Qed.
 (* what K says, spelled out for one contract *)
 Theorem C10_backed_means : forall a z, K_htlc a -> liab_htlc (a_store a) z <= bal_get (a_bal a) z.
 Proof. intros a z (_ & H). apply H. Qed.
+
+(* the per-beneficiary fused total kept by the plasma contract is the sum of the beneficiary's fusion entries (as a
+   uint256; plainly equal while that sum is below 2^256), along every history whose sends have fresh hashes *)
+Theorem C10_fused_total : forall dc ef a, plasma_reach dc ef a ->
+  nonneg pstore a /\ J_plasma a /\ K_plasma a /\ forall b, fused_of (a_store a) b = u256 (entries_of (a_store a) b).
+Proof. exact fused_total. Qed.
+Theorem C10_fused_total_exact : forall dc ef a b, plasma_reach dc ef a -> 0 <= entries_of (a_store a) b < two256 ->
+  fused_of (a_store a) b = entries_of (a_store a) b.
+Proof. exact fused_total_exact. Qed.
 
 (* ---- release rules: success => guard *)
 Theorem C10_cancel_stake_guard : forall e (a a' : cacct sstore) s ds,
